@@ -306,7 +306,9 @@ def _h_gate(nlen):
 
 # ---------------------------------------------------------------- (c) the map is the user's, not the connection's
 PERSIST_OPS = [b'PUTSCRIPT "x" "keep;"', b'PUTSCRIPT "mine" "stop;"', b'SETACTIVE ""', b'SETACTIVE "x"', b'DELETESCRIPT "mine"',
-               b'DELETESCRIPT "x"', b'RENAMESCRIPT "x" "y"', 'other-connection', 'relogin']
+               b'DELETESCRIPT "x"', b'RENAMESCRIPT "x" "y"', 'other-connection', 'relogin',
+               # a stored name that is a substring of the active one
+               b'PUTSCRIPT "minefield" "keep;"', b'SETACTIVE "minefield"']
 
 
 def _run_sieve(g, conn_mod, login, cfg, feed):
